@@ -746,7 +746,7 @@ class Gen(object):
         elif k < 0.8:
             t = b" ".join(r.choice(TEXTS) for _ in range(r.randint(2, 4)))
         elif k < 0.88:
-            t = (r.choice([b"long ", b"\xc3\xa9", b"ab ", b"\xe2\x82\xac"]) * 400)[:r.randint(380, 700)]
+            t = (r.choice([b"long ", b"\xc3\xa9", b"ab ", b"\xe2\x82\xac", b"\xf0\x9f\x98\x80", b"x\xf0\x9f\x98\x80"]) * 400)[:r.randint(380, 700)]
             t = t.decode("utf-8", "ignore").encode("utf-8")
         elif k < 0.95:
             t = "".join(chr(r.choice([r.randint(0x20, 0x7e), r.randint(0xa0, 0xff), r.randint(0x100, 0x24f),
@@ -1877,6 +1877,32 @@ def mon_c06(tr):
 _CMD_RE = re.compile(rb"^([A-Za-z]+|[0-9]{3})\Z")
 
 
+def go_json_delivered(data):
+    """what a client holds after GET /messages: encoding/json writes U+FFFD for every byte that is not part of a well-formed
+    UTF-8 sequence (utf8.DecodeRune returns RuneError with width 1), the client's decoder keeps it"""
+    out = bytearray()
+    i, n = 0, len(data)
+    while i < n:
+        c = data[i]
+        if c < 0x80:
+            out.append(c); i += 1; continue
+        if 0xC2 <= c <= 0xDF: k, lo, hi = 1, 0x80, 0xBF
+        elif c == 0xE0: k, lo, hi = 2, 0xA0, 0xBF
+        elif 0xE1 <= c <= 0xEC or 0xEE <= c <= 0xEF: k, lo, hi = 2, 0x80, 0xBF
+        elif c == 0xED: k, lo, hi = 2, 0x80, 0x9F
+        elif c == 0xF0: k, lo, hi = 3, 0x90, 0xBF
+        elif 0xF1 <= c <= 0xF3: k, lo, hi = 3, 0x80, 0xBF
+        elif c == 0xF4: k, lo, hi = 3, 0x80, 0x8F
+        else: k = -1
+        ok = (k > 0 and i + k <= n - 1 and lo <= data[i + 1] <= hi
+              and all(0x80 <= data[i + j] <= 0xBF for j in range(2, k + 1)))
+        if ok:
+            out += data[i:i + k + 1]; i += k + 1
+        else:
+            out += b"\xef\xbf\xbd"; i += 1
+    return bytes(out)
+
+
 def mon_c15(tr):
     """C15: every delivered message is one IRC line: <= 510 bytes, no CR/LF/NUL, starts with a prefix and a command
     (RFC 1459: the prefix is optional; the code omits it only on ERROR lines and on lines that go to services links only)."""
@@ -1890,6 +1916,11 @@ def mon_c15(tr):
             d = m.data
             if len(d) > 510:
                 F.append(("c15:len", "output line of %d bytes" % len(d), i))
+            else:
+                dd = go_json_delivered(d)
+                if len(dd) > 510:
+                    F.append(("c15:len-delivered", "output line of %d bytes is delivered (JSON encoding of GET /messages replaces each byte of "
+                              "an incomplete UTF-8 sequence by U+FFFD) as %d bytes: ...%r" % (len(d), len(dd), dd[-16:]), i))
             for ch, nm in ((b"\r", "cr"), (b"\n", "lf"), (b"\x00", "nul")):
                 if ch in d:
                     F.append(("c15:ctl:%s:%s" % (nm, origin), "output line contains %s: %r" % (nm.upper(), d[:200]), i))
